@@ -160,7 +160,7 @@ PROP = {
                    "the four tie theorems are re-proved against the bodies of IsDuplicate, cleanOut, the middleware closure and the decorator's Publish "
                    "extracted from the current source; the harness validates the model on real executions incl. concurrent and timed ones.",
     "level_text": "proof",
-    "level_note": "window, frame, expiry, exactly-one, middleware/decorator decisions and hasher prefix laws are theorems over the model; "
+    "level_note": "The middleware inside a Router (a duplicate is Acked without handler call or publish) is composed with the handleMessage model of C02 (Props/C14Router.lean) whose tie is re-proved in this check. window, frame, expiry, exactly-one, middleware/decorator decisions and hasher prefix laws are theorems over the model; "
                   "SHA-256 distinctness is a hypothesis (tested); ticker liveness and real-time behaviour are tested only. "
                   "Open finding: batch-aborted-after-accept (decorator remembers keys of a batch it then aborts).",
     "technique": "Lean 4 model of the expiring-key repository as an atomic-step transition function over an abstract clock; induction over arbitrary "
